@@ -117,10 +117,50 @@ def _r11_lists_as_configured(ctx):
                   "the advertisement builder reorders or shortens a list: %s" % (bad or "-"))
 
 
+def _r12_every_prefix_is_advertised(ctx):
+    """R12 every configured prefix gets its Prefix Information option: in the loop over the interface's prefixes no path goes on to the next
+    prefix without having added the option for this one (no `continue` for a prefix that another one "covers")."""
+    P = ctx.P
+    n = 0
+    for b in P.bodies.values():
+        if not b.id.endswith("radv::RaAdvService::build_announcement_pure"):
+            continue
+        T = terms(P, b)
+        cfg = cfg_of(b)
+        loops = cfg.loops_by_header()
+        for bb, tm in b.calls():
+            if not (callee_name(tm) or "").endswith("NDOptions::add_option"):
+                continue
+            a = norm(T.call_args(bb)[1])
+            if not (a[0] == "agg" and a[2] == "Prefix"):
+                continue
+            mine = [l for l in loops if bb in l]
+            if not mine:
+                continue
+            loop = min(mine, key=len)
+            n += 1
+            ctx.saw(b)
+            heads = {h for (u, h) in cfg.back_edges() if h in loop and u in loop}
+            skipping = []
+            for sb, t2 in b.terms():
+                if sb in loop and t2["k"] == "switch":
+                    d = norm(T.at_term(t2["discr"], sb))
+                    if d[0] == "discr" and norm(d[1])[0] == "call" and str(norm(d[1])[1]).endswith("::next") and any(
+                            y[0] == "field" and y[2] == "prefixes" for y in subterms(norm(d[1]))):
+                        for _, tgt in discr_edges(cfg, sb, 1):
+                            if cfg.reachable_from(tgt, blocked=(bb,)) & heads:
+                                skipping.append(sb)
+            ctx.check(not skipping, "R12", "every-configured-prefix-is-advertised", ctx.where(b, tm["sp"]),
+                      "the loop over the interface's prefixes can go on to the next prefix without adding the Prefix Information option for this one")
+    if ctx.config in ("default", "radv"):
+        ctx.floor("R12", "prefix options added in the prefix loop", n, 1)
+
+
 def run(ctx):
     P = ctx.P
     _r1(ctx)
     _r11_lists_as_configured(ctx)
+    _r12_every_prefix_is_advertised(ctx)
     enc = [f for f in P.bodies if f.endswith("radv::icmppkt::serialise_router_advertisement")]
     ctx.floor("R3", "RA encoder", len(enc), 1)
     if enc:
